@@ -1636,6 +1636,11 @@ def run(tier, seed, only=None):
             for alg, (ex, wit) in per_alg.items():
                 if ex is None:
                     continue
+                if not crashed and len(sig) > 1:
+                    # the algorithms dispute what has to be excluded (reported above): there is no agreed set of
+                    # exclusions whose deletion could be compared
+                    ck.count("deletion not evaluated: algorithms disagree on the exclusions")
+                    continue
                 pit, rest = passive_items(items, ex["passive"], ex["abs_items"], ex["exp_passive"])
                 if rest:
                     ck.inconc("passive observation of the hook not found in the input")
